@@ -201,7 +201,9 @@ def run():
     verd = validate(rep, traces)
     # the binding binds: a recorded trace whose directory lacks a listed data file / whose operation log lost an entry is rejected
     import copy
-    probe = next((tr for tr in traces if tr['post']['desc'] == 'parseable' and tr['post']['data'] and len(tr['ev']) > 3), None)
+    # (a probe is an execution that itself conforms - under a broken library another one is taken, or the self-test is skipped)
+    probe = next((tr for tr, v in zip(traces, verd) if tr['post']['desc'] == 'parseable' and tr['post']['data'] and len(tr['ev']) > 3
+                  and v['c19'] and v['fs_eq'] and v['matched'] == v['total']), None)
     if probe is not None:
         c1 = copy.deepcopy(probe)
         c1['post']['data'][0] = 'absent'
